@@ -26,6 +26,12 @@ class Mismatch(Exception):
     pass
 
 
+
+def _sig(e):
+    """what differs, without line numbers: part of the violation key, so that a second, different discrepancy in the same case is another instance"""
+    import re as _re
+    return _re.sub(r"\s+", " ", _re.sub(r"\bline \d+:? ?", "", str(e))).strip()[:140]
+
 def screaming(name):
     """HitInfo -> HIT_INFO (enum constant prefix used by the printer)"""
     s = re.sub(r"([a-z0-9])([A-Z])", r"\1_\2", name)
@@ -451,7 +457,7 @@ def run(ctx):
                 used_consts |= cmpr.used_consts
                 n_items += cmpr.n_items
         except Mismatch as e:
-            ctx.violate("ws.layout", f"world|{name}", f"{name}: {e}", "wow_message_parser/tests/wireshark/parser.txt", line)
+            ctx.violate("ws.layout", f"world|{name}|{_sig(e)}", f"{name}: {e}", "wow_message_parser/tests/wireshark/parser.txt", line)
         except wowm.WowmError as e:
             ctx.violate("ws.layout", f"world|{name}|ref", f"{name}: reference layout failed: {e}")
     # ---- login ---------------------------------------------------------------------------------------------------------------
@@ -495,7 +501,7 @@ def run(ctx):
                     used_consts |= cmpr.used_consts
                     n_items += cmpr.n_items
             except Mismatch as e:
-                ctx.violate("ws.layout", f"login|{name}|v{ver}", f"{name} (protocol {ver}): {e}", "wow_message_parser/tests/wireshark/parser.txt", line)
+                ctx.violate("ws.layout", f"login|{name}|v{ver}|{_sig(e)}", f"{name} (protocol {ver}): {e}", "wow_message_parser/tests/wireshark/parser.txt", line)
             except wowm.WowmError as e:
                 ctx.violate("ws.layout", f"login|{name}|v{ver}|ref", f"{name} (protocol {ver}): reference layout failed: {e}")
     ctx.rule("ws.layout", n_cases + n_empty, floor=560, note=f"{n_empty} empty messages without a case; dissector cases compared with wowm reference layouts ({n_items} reference items walked; world = Vanilla, login = per protocol version)")
